@@ -23,6 +23,7 @@
                                   at the species list of that moment.
 -/
 import GoNeat.Model.SpeciateLog
+import GoNeat.Spec.Placed
 import GoNeat.Props.C08Batch
 import GoNeat.Props.C02Epoch
 import GoNeat.Proofs.ChampionChain
@@ -671,5 +672,206 @@ theorem log_nearest (hw : StrictWeak W) (o : EpochOpts W) (log : List (Pop W × 
     (hfin : ∀ e ∈ log, finiteAt o e.1.species e.2 = true) :
     ∀ e ∈ log, Nearest o e.1.species e.2 (placeTarget o e.1 e.2) :=
   fun e he => placeTarget_nearest hw o e.1 e.2 (hfin e he)
+
+/-! ### (d) the executable predicate `PopSpec.placedWhy` accepts the model's epoch -/
+
+theorem compat_congr_left (c : CompatOpts W) (g1 g2 g' : Genome W) (h : g1.genes = g2.genes) :
+    compatibility c g1 g' = compatibility c g2 g' := by
+  obtain ⟨i1, t1, n1, ge1, m1⟩ := g1
+  obtain ⟨i2, t2, n2, ge2, m2⟩ := g2
+  simp only at h
+  subst h
+  rfl
+
+theorem compat_congr_right (c : CompatOpts W) (g g1 g2 : Genome W) (h : g1.genes = g2.genes) :
+    compatibility c g g1 = compatibility c g g2 := by
+  obtain ⟨i1, t1, n1, ge1, m1⟩ := g1
+  obtain ⟨i2, t2, n2, ge2, m2⟩ := g2
+  simp only at h
+  subst h
+  rfl
+
+theorem genes_of_renum (x b : Org W) (e : x = { b with genome := { b.genome with id := x.genome.id } }) :
+    x.genome.genes = b.genome.genes := by rw [e]
+
+/-- positions, ids and first organisms of the species list are kept by every arrival -/
+theorem speciateOne_ext (o : EpochOpts W) (p p1 : Pop W) (org : Org W) (h : speciateOne o p org = .ok p1) :
+    ∀ (j : Nat) (s : Species W) (r : Org W), p.species[j]? = some s → s.orgs.head? = some r →
+      ∃ s1 : Species W, p1.species[j]? = some s1 ∧ s1.orgs.head? = some r := by
+  intro j s r hs hr
+  rcases speciateOne_spec o p p1 org h with ⟨i, _, hsp, _⟩ | ⟨_, _, sn, hsp, _⟩
+  · rw [hsp]
+    by_cases hij : i = j
+    · subst hij
+      rw [List.getElem?_modify_eq, hs]
+      exact ⟨_, rfl, head?_append_of_head? _ hr⟩
+    · rw [List.getElem?_modify_ne _ _ hij]
+      exact ⟨s, hs, hr⟩
+  · rw [hsp, List.getElem?_append_left (List.getElem?_eq_some_iff.mp hs).1]
+    exact ⟨s, hs, hr⟩
+
+/-- at every moment of a `speciate` call, the species the call started with are at their positions with their first
+    organisms -/
+theorem speciateLoopLog_ext (o : EpochOpts W) (p p' : Pop W) (orgs : List (Org W)) (log : List (Pop W × Org W))
+    (h : speciateLoopLog o p orgs = .ok (p', log)) :
+    ∀ e ∈ log, ∀ (j : Nat) (s : Species W) (r : Org W), p.species[j]? = some s → s.orgs.head? = some r →
+      ∃ sq : Species W, e.1.species[j]? = some sq ∧ sq.orgs.head? = some r := by
+  induction orgs generalizing p log with
+  | nil =>
+    simp only [speciateLoopLog, Except.ok.injEq, Prod.mk.injEq] at h
+    obtain ⟨rfl, rfl⟩ := h
+    intro e he; cases he
+  | cons org rest ih =>
+    unfold speciateLoopLog at h
+    split at h
+    · cases h
+    · rename_i p1 h1
+      split at h
+      · cases h
+      · rename_i q log' hrest
+        simp only [Except.ok.injEq, Prod.mk.injEq] at h
+        obtain ⟨rfl, rfl⟩ := h
+        intro e he j s r hs hr
+        rcases List.mem_cons.mp he with rfl | he'
+        · exact ⟨s, hs, hr⟩
+        · obtain ⟨s1, hs1, hr1⟩ := speciateOne_ext o p p1 org h1 j s r hs hr
+          exact ih p1 log' hrest e he' j s1 r hs1 hr1
+
+/-- the nearest rule at the moment of arrival (`q`), read against the species list `ap` the `speciate` call started from:
+    `ap`'s species are at their positions in `q` with their first organisms (`hext`) -/
+theorem oldOk_of_nearest (o : EpochOpts W) (ap q : Pop W) (b x rep : Org W) (sq : Species W) (i i' : Nat)
+    (hx : x.genome.genes = b.genome.genes)
+    (hext : ∀ (j : Nat) (s : Species W) (r : Org W), ap.species[j]? = some s → s.orgs.head? = some r →
+      ∃ sj : Species W, q.species[j]? = some sj ∧ sj.orgs.head? = some r)
+    (hn : Nearest o q.species b (some i)) (hsq : q.species[i]? = some sq) (hrep : sq.orgs.head? = some rep)
+    (hi : ∀ j, j < ap.species.length → ¬ i' ≤ j → j < i) :
+    PopSpec.oldOk o ap x rep i' = true := by
+  obtain ⟨s0, rep0, hs0, hrep0, _, hmin⟩ := hn
+  rw [hsq] at hs0
+  cases hs0
+  rw [hrep] at hrep0
+  cases hrep0
+  unfold PopSpec.oldOk
+  rw [List.all_eq_true]
+  intro j hj
+  have hjl := List.mem_range.mp hj
+  cases hsj : ap.species[j]? with
+  | none => rfl
+  | some s =>
+    simp only
+    cases hr : s.orgs.head? with
+    | none => rfl
+    | some r =>
+      simp only
+      obtain ⟨sj, hsj', hrj⟩ := hext j s r hsj hr
+      have e1 : ∀ g', compatibility o.compat x.genome g' = compatibility o.compat b.genome g' :=
+        fun g' => compat_congr_left _ _ _ _ hx
+      unfold PopSpec.within
+      simp only [e1]
+      cases hlt : lt (compatibility o.compat b.genome r.genome) o.compatThreshold with
+      | false => rfl
+      | true =>
+        obtain ⟨h1, h2⟩ := hmin j sj r hsj' hrj hlt
+        rw [h1]
+        simp only [Bool.not_true, Bool.false_or, Bool.not_false, Bool.true_and]
+        by_cases hle : i' ≤ j
+        · simp [hle]
+        · simp [hle, h2 (hi j hjl hle)]
+
+theorem founderOk_of_nearest (o : EpochOpts W) (ap q : Pop W) (b x : Org W)
+    (hx : x.genome.genes = b.genome.genes)
+    (hext : ∀ (j : Nat) (s : Species W) (r : Org W), ap.species[j]? = some s → s.orgs.head? = some r →
+      ∃ sj : Species W, q.species[j]? = some sj ∧ sj.orgs.head? = some r)
+    (hn : Nearest o q.species b none) : PopSpec.founderOk o ap x = true := by
+  unfold PopSpec.founderOk
+  rw [List.all_eq_true]
+  intro s hs
+  obtain ⟨j, hj⟩ := List.getElem?_of_mem hs
+  cases hr : s.orgs.head? with
+  | none => rfl
+  | some r =>
+    simp only
+    obtain ⟨sj, hsj', hrj⟩ := hext j s r hj hr
+    have := hn sj (List.mem_of_getElem? hsj') r hrj
+    unfold PopSpec.within
+    rw [compat_congr_left _ _ _ _ hx, this]; rfl
+
+/-- every species of the model's new generation passes the executable per-species check against the prepared population -/
+theorem speciesPlacedOk_model (hw : StrictWeak W) (o : EpochOpts W) (gen : Int) (p p' p1 p2 : Pop W) (ex : ExecState)
+    (rs rs1 rs' : List Nat) (babies : List (Org W)) (reg : Reg W) (uid : Nat) (log : List (Pop W × Org W))
+    (hu : C02.UidInv p) (hnd : (p.species.map (·.id)).Nodup)
+    (st : Stages o gen p rs p1 ex rs1 babies reg uid p2 log p' rs')
+    (hfin : ∀ e ∈ log, finiteAt o e.1.species e.2 = true) :
+    ∀ s' ∈ p'.species, PopSpec.speciesPlacedOk o p1 s' = true := by
+  have hextAll : ∀ e ∈ log, ∀ (j : Nat) (s : Species W) (r : Org W), p1.species[j]? = some s → s.orgs.head? = some r →
+      ∃ sq : Species W, e.1.species[j]? = some sq ∧ sq.orgs.head? = some r :=
+    speciateLoopLog_ext o { p1 with reg := reg, nextUid := uid } p2 babies log st.log
+  have hlast : p1.lastSpecies = p.lastSpecies := (C02.prepare_spec o p p1 ex rs rs1 hnd st.prep).1
+  intro s' hs'
+  unfold PopSpec.speciesPlacedOk
+  rcases nextEpoch_species_placed o gen p p' p1 p2 ex rs rs1 rs' babies reg uid log hu hnd st s' hs' with
+    ⟨i, s1, rep, h1, h2, h3, _, hall⟩ | ⟨hgt, i, f, x0, t', hlen, ho, hx0, ⟨q0, hq0, hfb, htar0, hid0⟩, hall⟩
+  · apply Bool.or_eq_true_iff.mpr
+    left
+    rw [List.any_eq_true]
+    refine ⟨i, List.mem_range.mpr (List.getElem?_eq_some_iff.mp h1).1, ?_⟩
+    simp only [h1, h2, h3, beq_self_eq_true, Bool.true_and]
+    rw [List.all_eq_true]
+    intro x hx
+    obtain ⟨q, b, hq, hb, e, htar, sq, hsq, hsqid, hrep, hlt⟩ := hall x hx
+    have hg := genes_of_renum x b e
+    have hn := placeTarget_nearest hw o q b (hfin _ hq)
+    rw [htar] at hn
+    rw [Bool.and_eq_true]
+    refine ⟨?_, oldOk_of_nearest o p1 q b x rep sq i i hg (hextAll (q, b) hq) hn hsq hrep (fun j _ h => by omega)⟩
+    unfold PopSpec.within
+    rw [compat_congr_left _ _ _ _ hg]; exact hlt
+  · apply Bool.or_eq_true_iff.mpr
+    right
+    rw [Bool.and_eq_true]
+    refine ⟨by simp only [decide_eq_true_eq]; rw [hlast]; exact hgt, ?_⟩
+    rw [ho]
+    simp only
+    rw [Bool.and_eq_true]
+    have hgf := genes_of_renum x0 f hx0
+    constructor
+    · have hn := placeTarget_nearest hw o q0 f (hfin _ hq0)
+      rw [htar0] at hn
+      exact founderOk_of_nearest o p1 q0 f x0 hgf (hextAll (q0, f) hq0) hn
+    · rw [List.all_eq_true]
+      intro y hy
+      obtain ⟨q, b, hq, hb, e, htar, sq, hsq, hsqid, hrep, hlt⟩ := hall y hy
+      have hg := genes_of_renum y b e
+      have hn := placeTarget_nearest hw o q b (hfin _ hq)
+      rw [htar] at hn
+      rw [Bool.and_eq_true]
+      have hok := oldOk_of_nearest o p1 q b y f sq i p1.species.length hg (hextAll (q, b) hq) hn hsq hrep
+        (fun j hj _ => by omega)
+      constructor
+      · unfold PopSpec.within
+        rw [compat_congr_left _ _ _ _ hg, compat_congr_right _ _ _ _ hgf]; exact hlt
+      · have : PopSpec.oldOk o p1 y x0 p1.species.length = PopSpec.oldOk o p1 y f p1.species.length := by
+          unfold PopSpec.oldOk
+          simp only [compat_congr_right o.compat y.genome x0.genome f.genome hgf]
+        rw [this]; exact hok
+
+/-- **C08 over the epoch, (d): the model's epoch passes `PopSpec.placedWhy`** — the predicate the driver evaluates on the
+    implementation's populations (after preparation / after the epoch).  Over a strict weak order with all distances met
+    by the search below its sentinel. -/
+theorem placedWhy_model (hw : StrictWeak W) (o : EpochOpts W) (gen : Int) (p p' p1 p2 : Pop W) (ex : ExecState)
+    (rs rs1 rs' : List Nat) (babies : List (Org W)) (reg : Reg W) (uid : Nat) (log : List (Pop W × Org W))
+    (hu : C02.UidInv p) (hnd : (p.species.map (·.id)).Nodup)
+    (st : Stages o gen p rs p1 ex rs1 babies reg uid p2 log p' rs')
+    (hfin : ∀ e ∈ log, finiteAt o e.1.species e.2 = true) : PopSpec.placedWhy o p1 p' = "" := by
+  have hk := speciesPlacedOk_model hw o gen p p' p1 p2 ex rs rs1 rs' babies reg uid log hu hnd st hfin
+  unfold PopSpec.placedWhy
+  split
+  · rename_i s' hfind
+    exfalso
+    have hs := List.mem_of_find?_eq_some hfind
+    have hp := List.find?_some hfind
+    rw [hk s' hs] at hp
+    simp at hp
+  · rfl
 
 end GoNeat.C08
